@@ -1,3 +1,4 @@
+import tokenize
 from os.path import getmtime
 
 from .util import cached_property, Source
@@ -56,7 +57,9 @@ class SourceModule(Object):
     @cached_property
     def scope(self):
         # type: () -> SourceScope
-        source = Source(open(self.filename).read(), self.filename)
+        # as the interpreter reads it: byte order mark dropped, coding line honoured
+        with tokenize.open(self.filename) as f:
+            source = Source(f.read(), self.filename)
         scope = extract_scope(source, self.project)
         self._deps = {}
         for name in scope.imported_modules():
